@@ -34,7 +34,7 @@ def strings(ctx):
         n = r.randint(5, 24)
         out.append(bytes(r.choice(ALPHA + [0x80, 0xff, 9, 10, 13, 1]) for _ in range(n)))
     # long digit runs (strtol clamp)
-    for n in (30, 100, 1000):
+    for n in (30, 100, 1000, 60000):
         out.append(b'1' * n + b'.1'); out.append(b'1.' + b'1' * n); out.append(b'0' * n + b'1.' + b'0' * n + b'2')
     seen, uniq = set(), []
     for s in out:
@@ -99,6 +99,15 @@ def run(ctx):
             nviol += 1
         elif i != m:
             ctx.broken_correspondence('FromString model and implementation differ on %r' % s, case)
+    # the std::string overload must give the same answers (no over-read detection there: the string owns its buffer)
+    implq = vf.run_parallel(guard, ['Q ' + (s.hex() or '-') for s in ss])
+    for s, q, sp in zip(ss, implq, spec):
+        ctx.case(('Q', s)); ctx.count('parse-std-string-overload')
+        if q != sp:
+            ctx.violation({'op': 'FromString', 'class': 'std-string-overload-differs', 'kind': kind(s)},
+                          'FromString(std::string(%r)) gives %s, the grammar gives %s' % (s.decode('latin1'), q, sp),
+                          {'op': 'FromString(std::string)', 'string_hex': s.hex(), 'impl': q, 'spec': sp})
+            break
     ctx.sample({'FromString': [(s.decode('latin1'), i) for s, i in list(zip(ss, impl))[::max(1, len(ss) // 8)]][:8]})
 
     # ---- ToString / round trip / IsValid / operators --------------------------------------------------
@@ -106,7 +115,7 @@ def run(ctx):
     if ctx.thorough:
         vers = [(a, b) for a in range(256) for b in range(65536)]
     else:
-        edge_b = [0, 1, 9, 10, 99, 100, 999, 1000, 9999, 10000, 65534, 65535]
+        edge_b = [0, 1, 9, 10, 99, 100, 999, 1000, 9999, 10000, 10001, 32767, 32768, 65534, 65535]
         vers = [(a, b) for a in range(256) for b in edge_b] + [(r.randrange(256), r.randrange(65536)) for _ in range(20000)]
         vers = list(dict.fromkeys(vers))
     tl = ['T %d %d' % v for v in vers]
@@ -125,6 +134,17 @@ def run(ctx):
             ctx.violation({'op': 'roundtrip', 'class': 'invalid-not-invalid'}, 'the invalid version prints as text that parses to %s' % bk, case)
         elif a != b or s != a:
             ctx.broken_correspondence('ToString / operator<< differ from the model on %r' % (v,), case)
+    # IsValid() on every version: only (255, 65535) is invalid
+    iv = vf.run_parallel(guard, ['V %d %d' % v for v in vers])
+    mv = vf.run_parallel(model, ['V %d %d' % v for v in vers])
+    for v, a, b in zip(vers, iv, mv):
+        ctx.case(('V', v)); ctx.count('isvalid')
+        want = '0' if v == (255, 65535) else '1'
+        if a != want:
+            ctx.violation({'op': 'IsValid', 'class': 'wrong-validity'}, 'IsValid() of %d.%d is %s' % (v[0], v[1], a), {'op': 'IsValid', 'version': v, 'impl': a})
+            break
+        if a != b:
+            ctx.broken_correspondence('IsValid model differs on %r' % (v,), {'version': v, 'impl': a, 'model': b})
     # ToString must not depend on the global C++ locale (a grouping locale would print "1,000")
     gl = [(a, b) for (a, b) in vers if b >= 1000][:4000] + [(255, 65534), (0, 1000), (100, 10000)]
     out = vf.run_lines(guard, ['G on'] + ['T %d %d' % v for v in gl] + ['G off'])[1]
